@@ -24,17 +24,52 @@ class CallGraph:
         for p, b in fb.bodies.items():
             self._scan(p, b)
 
-    def resolve_trait_call(self, fn):
+    def _bounds_of(self, caller, pname):
+        """Trait paths bounding type parameter `pname` in the caller (closures: in their root fn)."""
+        b = caller
+        if b is not None and b["kind"] == "Closure":
+            b = self.fb.bodies.get(b["root"], b)
+        out = []
+        for pr in (b or {}).get("predicates", []):
+            if pr.startswith(pname + ": "):
+                tr = pr[len(pname) + 2:].split("<")[0].strip()
+                if tr and not tr.startswith("'"):
+                    out.append(tr)
+        return out
+
+    def _adt_implements(self, adt_path, trait_path):
+        for (tp, _name), cands in self._impl_index.items():
+            if tp == trait_path and any(ap == adt_path for (ap, k, p) in cands):
+                return True
+        return trait_path in self._marker_ok
+
+    _marker_ok = {"std::marker::Sized", "std::marker::Send", "std::marker::Sync", "std::marker::Copy", "std::marker::Unpin"}
+
+    def resolve_trait_call(self, fn, caller=None):
         """Local bodies a trait-method call may dispatch to."""
         tr = fn.get("trait")
         if not tr:
             return []
         cands = self._impl_index.get((tr, fn["name"]), [])
         sk = fn.get("self_kind") or {}
+        while sk.get("k") == "ref":
+            sk = sk.get("inner") or {}
         out = []
         if sk.get("k") in ("adt",):
             out = [p for (ap, k, p) in cands if ap == sk.get("path")]
-        elif sk.get("k") in ("param", "alias", None, "ref"):
+        elif sk.get("k") == "param":
+            # Self is a type parameter: any local type satisfying the parameter's bounds may be meant.
+            # A local ADT can implement an external trait only through a local impl (orphan rule), so
+            # "has a local impl of every bound that is not derivable" is exact for external bounds.
+            bounds = [b for b in self._bounds_of(caller, sk.get("name", "")) if b != tr]
+            for (ap, k, p) in cands:
+                if k == "adt":
+                    hard = [b for b in bounds if b.startswith("num::") or b.startswith("num_traits::")]
+                    if all(self._adt_implements(ap, b) for b in hard):
+                        out.append(p)
+                else:
+                    out.append(p)
+        elif sk.get("k") in ("alias", None):
             out = [p for (_, _, p) in cands]
         else:
             # primitive / tuple / closure Self: only blanket impls could match
@@ -53,8 +88,15 @@ class CallGraph:
         nb = mir.normal_blocks(b)
 
         def note_fn(fn, span, is_call):
+            sk = fn.get("self_kind") or {}
+            while sk.get("k") == "ref":
+                sk = sk.get("inner") or {}
+            if fn.get("trait") in ("std::ops::Fn", "std::ops::FnMut", "std::ops::FnOnce") and sk.get("k") == "closure":
+                if sk.get("path") in self.fb.bodies:
+                    es.add(sk["path"])
+                return
             if fn.get("trait"):
-                tgts = self.resolve_trait_call(fn)
+                tgts = self.resolve_trait_call(fn, b)
                 for t in tgts:
                     es.add(t)
                 if not fn.get("local") or not tgts:
